@@ -8,6 +8,7 @@ clock-carrying change (`ID.Next()`), `recv d` = applying a remote change
 Presence-only changes (`Next(true)`) carry no clock by design and are outside the
 causal clauses; `nextPresenceOnly_noClock` states that.
 -/
+import YorkieModel.Lemmas.FDocSnapArr
 import YorkieModel.Lemmas.VV
 import YorkieModel.Generated.Consts
 namespace Yorkie.Props.C06
@@ -364,6 +365,38 @@ example : VV.le [(1, 2)] [(2, 9), (1, 3)] ∧ VV.equalToOrAfter [(1, 2)] ⟨2, 0
   split at h
   · rename_i ha; subst ha; injection h with h; subst h; exact ⟨3, by decide, by decide⟩
   · cases h
+
+/-! ### `Ticket.Compare` is a strict total order on tickets (added; tie: engine `time`, `TK.cmp` / `TK.after` lines):
+    every last-writer-wins decision is well defined, independent of the order of comparison, and two different
+    tickets are never tied -/
+
+theorem ticket_cmp_eq_iff (a b : Ticket) : a.cmp b = .eq ↔ a = b := by
+  cases a; cases b
+  simp only [Ticket.cmp, Ticket.mk.injEq]
+  grind
+
+theorem ticket_cmp_swap (a b : Ticket) : a.cmp b = .gt ↔ b.cmp a = .lt := by
+  unfold Ticket.cmp; grind
+
+theorem ticket_after_irrefl (a : Ticket) : a.after a = false := by
+  simp [Ticket.after, Ticket.cmp]
+
+theorem ticket_after_asymm (a b : Ticket) (h : a.after b = true) : b.after a = false := by
+  cases hb : b.after a with
+  | false => rfl
+  | true =>
+    simp only [Ticket.after, beq_iff_eq] at h hb
+    exact absurd ((FDoc.cmp_gt_iff b a).mp hb) (FDoc.gt3_asymm ((FDoc.cmp_gt_iff a b).mp h))
+
+theorem ticket_after_trans (a b c : Ticket) (h₁ : a.after b = true) (h₂ : b.after c = true) : a.after c = true := by
+  simp only [Ticket.after, beq_iff_eq] at *
+  exact (FDoc.cmp_gt_iff a c).mpr (FDoc.gt3_trans ((FDoc.cmp_gt_iff a b).mp h₁) ((FDoc.cmp_gt_iff b c).mp h₂))
+
+theorem ticket_after_total (a b : Ticket) (h : a ≠ b) : a.after b = true ∨ b.after a = true := by
+  cases a; cases b
+  simp only [ne_eq, Ticket.mk.injEq] at h
+  simp only [Ticket.after, Ticket.cmp]
+  grind
 
 /-- T-gen tie: the initial values the model starts from are the constants in the source. -/
 theorem consts_match :
